@@ -56,7 +56,8 @@ def build(r, style, kind=None):
     c = Case(r, style)
     kind = kind or r.choice(['from', 'join', 'join3', 'where-sub', 'target-sub', 'case-sub', 'func-sub', 'cte', 'insert-select', 'update-from',
                              'delete-sub', 'model', 'model-version', 'model-2tables', 'union', 'where-sub-join', 'target-sub-join',
-                             'model-twice', 'model-twice'])
+                             'model-twice', 'model-twice', 'qualified-cols', 'delete-qualified', 'update-qualified', 'model-select',
+                             'model-sub-twice'])
     c.positions.add(kind)
     t1 = c.tbl()
     if kind == 'from':
@@ -92,6 +93,13 @@ def build(r, style, kind=None):
         return f'DELETE FROM {t1} WHERE k IN ({c.sub("s1")})', c
     if kind == 'union':
         return f'SELECT a1.c FROM {t1} AS a1 UNION SELECT a2.c FROM {c.tbl()} AS a2', c
+    # columns written with the full integration.table.column path (no alias)
+    if kind == 'qualified-cols':
+        return f'SELECT {t1}.c, {t1}.k AS kk FROM {t1} WHERE {t1}.k = 1 AND {t1}.x > 2 ORDER BY {t1}.c', c
+    if kind == 'delete-qualified':
+        return f'DELETE FROM {t1} WHERE {t1}.k = 5' + r.choice(['', f' AND {t1}.x IN (1, 2)', f' OR NOT {t1}.x = 3']), c
+    if kind == 'update-qualified':
+        return f'UPDATE {t1} SET c = 1 WHERE {t1}.k = 5', c
     # models
     proj = r.choice(['mindsdb', 'proj'])
     ver = r.choice([None, None, '3']) if kind != 'model-version' else r.choice(['3', '12'])
@@ -99,6 +107,15 @@ def build(r, style, kind=None):
     c.models[mname] = (proj, ver)
     mref = f'{spell(proj, style)}.{mname}' + (f'.{ver}' if ver else '')
     frm = f'{t1} AS a1'
+    if kind == 'model-select':
+        c.homes.clear()
+        return f'SELECT * FROM {mref} WHERE x = 1', c
+    if kind == 'model-sub-twice':
+        v1, v2 = r.choice([('1', '2'), ('3', None), (None, '7'), ('2', '2')])
+        c.models[mname] = (proj, [v1, v2])
+        ref = lambda v: f'{spell(proj, style)}.{mname}' + (f'.{v}' if v else '')
+        return (f'SELECT a1.c FROM {frm} WHERE a1.k = (SELECT y FROM {ref(v1)} WHERE x = 1) '
+                f'AND a1.x = (SELECT y FROM {ref(v2)} WHERE x = 2)'), c
     if kind == 'model-twice':
         v1, v2 = r.choice([('1', '2'), ('3', None), (None, '7'), ('2', '2')])
         c.models[mname] = (proj, [v1, v2])
@@ -209,6 +226,9 @@ def judge(case, rows, default_ns):
                 if len(parts) > 1 and parts[0] != home:
                     out.append(({'defect': 'dml-target-wrong-integration'}, {'marker': m, 'table': r[1]}))
             for m2, occ in r[2].items():
+                for parts2 in occ:
+                    if len(parts2) > 1 and parts2[0].lower() in INTS + ['mindsdb', 'proj']:
+                        out.append(({'defect': 'qualifier-kept-in-pushed-query'}, {'marker': m2, 'parts': parts2, 'step': r[0]}))
                 # tables inside the WHERE of a delete step are executed on the target's integration
                 home = case.homes.get(m2)
                 tgt_home = case.homes.get(m) if m else None
@@ -246,6 +266,7 @@ def judge(case, rows, default_ns):
 def run_shard(ctx):
     from mindsdb_sql import parse_sql
     from mindsdb_sql.planner import plan_query
+    from mindsdb_sql.planner.query_planner import QueryPlanner
     from mindsdb_sql.exceptions import PlanningException
     acc = ctx.acc
     n = 1500 if ctx.tier == 'quick' else 20000
@@ -298,6 +319,42 @@ def run_shard(ctx):
                     acc.fail(sig, det)
                 if len(acc.samples) < 5 and i % 17 == 0 and style == 'lower':
                     acc.sample({'text': text, 'homes': case.homes, 'models': case.models, 'routing': [repr(x)[:120] for x in canon(rows)]})
+        # one planner object planning several statements in a row (from_query resets the plan, so this is a supported
+        # use): every plan must route exactly as a fresh planner routes the same statement
+        if i % 2 == 0:
+            r = core.rng_for(base_seed, 'shape')
+            text, case = build(r, 'lower', kind)
+            seq = [text]
+            if case.models:
+                for v in ('5', None, '7'):
+                    seq.append(re.sub(r'(mdl_1)(\.\d+)?', lambda m: 'mdl_1' + ('.' + v if v else ''), text))
+            else:
+                r2 = core.rng_for(base_seed, 'other')
+                other, case2 = build(r2, 'lower', r2.choice(['from', 'join', 'where-sub', 'cte', 'union', 'delete-qualified', 'qualified-cols']))
+                seq.append(other)
+            seq.append(text)
+            kw = catalog(form0, case, default_ns)
+            try:
+                planner = QueryPlanner(**kw)
+            except Exception:
+                planner = None
+            for k, vt in enumerate(seq if planner is not None else []):
+                acc.ev()
+                outs = []
+                for how in ('fresh', 'reused'):
+                    try:
+                        q = parse_sql(vt, 'mindsdb')
+                        plan = plan_query(q, **kw) if how == 'fresh' else planner.from_query(q)
+                        outs.append(canon(routing(plan)))
+                    except (PlanningException, NotImplementedError) as e:
+                        outs.append(('rejected', type(e).__name__))
+                    except Exception as e:
+                        outs.append(('internal-error', type(e).__name__))
+                acc.count('reuse_compared')
+                if outs[0] != outs[1]:
+                    acc.fail({'defect': 'routing-depends-on-planner-history', 'position': next(iter(case.positions))},
+                             {'sequence': seq[:k + 1], 'fresh': repr(outs[0])[:400], 'reused': repr(outs[1])[:400], 'default_namespace': default_ns})
+                    break
         # metamorphic: same routing whatever the spelling / catalog form
         vals = list(maps.items())
         for (k1, v1), (k2, v2) in zip(vals, vals[1:]):
